@@ -665,7 +665,7 @@ fn all_seqs(k: usize, depth: usize) -> Vec<Vec<usize>> {
     out
 }
 
-const MV_OPS: [&str; 10] = ["push", "extend3", "pop", "truncate_half", "clear", "sync", "reserve8", "shrink_to_fit", "resize+2", "set_first"];
+const MV_OPS: [&str; 11] = ["push", "extend3", "pop", "truncate_half", "clear", "sync", "reserve8", "shrink_to_fit", "resize+2", "set_first", "sync+close+open"];
 
 struct MmapVecOps {
     ops: Vec<usize>,
@@ -739,6 +739,15 @@ impl CrashSpec for MmapVecOps {
                     }
                     rec.op_boundary(st);
                 }
+            }
+            if *op == 10 {
+                // the history continues on the REOPENED vector (open() rebuilds capacity / pointers from the header)
+                v.sync().map_err(es)?;
+                rec.sync_point(mv32_state(&v));
+                drop(v);
+                v = MmapVec::open(&p, MmapVecConfig::builder().with_sync_on_write(self.sync_on_write).build()).map_err(es)?;
+                rec.op_boundary(mv32_state(&v));
+                continue;
             }
             Self::apply(&mut v, *op, i)?;
             if *op == 5 {
